@@ -421,6 +421,9 @@ def main() -> None:
         out = {k: v for k, v in out.items() if v}
         TABLE.write_text(json.dumps(out, indent=0, sort_keys=True) + "\n")
         print(f"{TABLE}: {sum(len(v) for v in out.values())} functions with locals in {len(out)} modules")
+        from . import delegation
+
+        print(f"{delegation.TABLE}: call sets of {delegation.write(pkg)} functions")
 
 
 if __name__ == "__main__":
